@@ -838,15 +838,17 @@ func (g *fnGen) binop(st *state, op token.Token, x, y string, tx, ty types.Type,
 		case token.LSS, token.LEQ, token.GTR, token.GEQ:
 			sym := q("strless")
 			g.R.declareFun(sym, "(declare-fun |strless| (Int Int) Bool)")
+			// strictly less implies different: the ordering is irreflexive without a quantified axiom
+			less := func(l, r string) string { return S("and", S("not", S("=", l, r)), S(sym, l, r)) }
 			switch op {
 			case token.LSS:
-				return S(sym, x, y)
+				return less(x, y)
 			case token.GTR:
-				return S(sym, y, x)
+				return less(y, x)
 			case token.LEQ:
-				return S("not", S(sym, y, x))
+				return S("not", less(y, x))
 			default:
-				return S("not", S(sym, x, y))
+				return S("not", less(x, y))
 			}
 		}
 	}
